@@ -17,6 +17,7 @@ import sys
 from typing import Dict, List
 
 import blame
+import workers
 from common import Report, import_pyrefact, tier, seed
 from tlc import MachineryError, run_tlc
 
@@ -141,7 +142,7 @@ def boolalg_runs(t: str):
 def ranges_part(rep: Report, mods, t: str, known, stats):
     sm, fixes = mods["symbolic_math"], mods["fixes"]
     if t == "quick":
-        consts = dict(starts="{-1, 0, 2}", stops="{0, 3, 4}", steps="{1, 2, 3}", fc="{0, 1, 3}", fo='{"<", ">=", "==", ">"}', box="-2..4", mults="{1, 3}")
+        consts = dict(starts="{-1, 0, 2}", stops="{0, 3, 4}", steps="{1, 2, 3}", fc="{0, 1, 3, 4}", fo='{"<", "<=", ">", ">=", "==", "!="}', box="-2..4", mults="{1, 3}")
     else:
         consts = dict(starts="-1..4", stops="-1..4", steps="{1, 2, 3}", fc="-1..4", fo='{"<", "<=", ">", ">=", "==", "!="}', box="-2..4", mults="{1, 2, 3}")
     mc = "\n".join(["---- MODULE RangesMC ----", "EXTENDS Ranges", f"MC_Starts == {consts['starts']}", f"MC_Stops == {consts['stops']}",
@@ -152,12 +153,41 @@ def ranges_part(rep: Report, mods, t: str, known, stats):
                      "CHECK_DEADLOCK FALSE", ""])
     res = run_tlc("RangesMC", cfg, generated_files={"RangesMC.tla": mc}, timeout_s=1800, keep_stdout=False)
     rep.add_tlc(res, "Ranges")
+    chunks = [[(i, rec) for i, rec in enumerate(res.records, start=1)][k:k + 150] for k in range(0, len(res.records), 150)]
+    results = workers.run_tasks(_range_chunk, chunks, init=_range_init, procs=16, timeout=900)
+    for chunk, out in zip(chunks, results):
+        if not isinstance(out, dict):
+            raise MachineryError(f"range cases did not finish: {out}")
+        if out["machinery"]:
+            raise MachineryError(out["machinery"])
+        stats["range_cases"] = stats.get("range_cases", 0) + out["cases"]
+        stats["range_rewrites"] = stats.get("range_rewrites", 0) + out["rewrites"]
+        for what, rname, text, case in out["bad"]:
+            if what == "raised":
+                rep.violation(case["message"], {"rule": rname, "program": text})
+                continue
+            sh = case["shape"]
+            kf = next((e["id"] for e in known if blame.matches_signature(e, rname if rname != "format_code" else
+                                                                         "symbolic_math.simplify_math_iterators", sh, text)), None)
+            if kf:
+                rep.known(kf, {"program": text.strip(), "output": case["output"].strip()})
+            else:
+                rep.violation(f"{rname}: {text.strip()!r} -> {case['output'].strip()!r}: expected {case['expected'][:4]} got {case['observed'][:4]}", case)
+
+
+def _range_init():
+    return import_pyrefact()
+
+
+def _range_chunk(mods, chunk):
+    sm, fixes = mods["symbolic_math"], mods["fixes"]
     box = list(range(-2, 5))
     rules = [("symbolic_math.simplify_constrained_range", sm.simplify_constrained_range),
              ("symbolic_math.simplify_math_iterators", sm.simplify_math_iterators),
              ("fixes.inline_math_comprehensions", fixes.inline_math_comprehensions),
              ("format_code", lambda s: mods["main"].format_code(s, preserve=frozenset({"r", "n"})))]
-    for rec in res.records:
+    out = {"machinery": None, "cases": 0, "rewrites": 0, "bad": []}
+    for idx, rec in chunk:
         kind = rec["kind"]
         if kind == "comp":
             parts = [f"x {op} {c}" if c >= 0 else f"x {op} ({c})" for op, c in rec["fs"]]
@@ -166,6 +196,8 @@ def ranges_part(rep: Report, mods, t: str, known, stats):
                     f"{parts[0]} and ({parts[1]} or {parts[2]})" if form == "andor" else f"{parts[0]} or {parts[1]} and {parts[2]}")
             args = f"{rec['a']}, {rec['b']}" + (f", {rec['s']}" if rec["s"] != 1 else "")
             text = f"r = [x for x in range({args}) if {cond}]\n"
+            if idx % 3 == 1 and rec["a"] == 0 and rec["s"] == 1:
+                text = f"r = [x for x in range({rec['b']}) if {cond}]\n"          # the one-argument spelling
             envs, exps = [{}], [rec["exp"]]
         elif kind == "sumrange":
             text = f"r = sum(range({rec['a']}, {rec['b']}))\n"
@@ -174,7 +206,7 @@ def ranges_part(rep: Report, mods, t: str, known, stats):
             fn_name = "sum" if kind == "sumlit" else "len"
             lit = ", ".join(str(v) for v in rec["lit"])
             for_text = [f"r = {fn_name}(({lit}{',' if len(rec['lit']) == 1 else ''}))\n", f"r = {fn_name}([{lit}])\n"]
-            text = for_text[stats.get("range_cases", 0) % 2]
+            text = for_text[idx % 2]
             envs, exps = [{}], [rec["exp"][0]]
         elif kind == "lencomp":
             text = f"r = len([x * {rec['s']} for x in range({rec['a']}, {rec['b']})])\n"
@@ -186,38 +218,34 @@ def ranges_part(rep: Report, mods, t: str, known, stats):
             d = rec["a"]
             text = f"r = sum(range(n + {d}))\n" if d >= 0 else f"r = sum(range(n - {-d}))\n"
             envs, exps = [{"n": v} for v in box], rec["exp"]
-        stats["range_cases"] = stats.get("range_cases", 0) + 1
+        out["cases"] += 1
         # spec validation
         real = [run_prog(compile(text, "<r>", "exec"), e) for e in envs]
         if real != exps:
-            raise MachineryError(f"Ranges.tla disagrees with CPython on {text!r}: {exps} vs {real}")
+            out["machinery"] = f"Ranges.tla disagrees with CPython on {text!r}: {exps} vs {real}"
+            return out
         for rname, fn in rules:
-            if rname == "format_code" and stats["range_cases"] % 6:
+            if rname == "format_code" and idx % 6:
                 continue
             try:
-                out = fn(text)
-            except Exception as exc:
-                rep.violation(f"{rname} raised {exc!r} on {text!r}", {"rule": rname, "program": text})
+                res_text = fn(text)
+            except Exception as exc:  # noqa: BLE001
+                out["bad"].append(("raised", rname, text, {"message": f"{rname} raised {exc!r} on {text!r}"}))
                 continue
-            if out == text:
+            if res_text == text:
                 continue
-            stats["range_rewrites"] = stats.get("range_rewrites", 0) + 1
+            out["rewrites"] += 1
             try:
-                code = compile(out, "<after>", "exec")
+                code = compile(res_text, "<after>", "exec")
             except SyntaxError:
                 continue
             after = [run_prog(code, e) for e in envs]
             same = all(type(a) is type(b) and a == b for a, b in zip(after, exps))
             if same:
                 continue
-            sh = blame.shape(text, out)
-            kf = next((e["id"] for e in known if blame.matches_signature(e, rname if rname != "format_code" else
-                                                                         "symbolic_math.simplify_math_iterators", sh, text)), None)
-            case = {"rule": rname, "program": text, "output": out, "expected": exps, "observed": after, "shape": sh}
-            if kf:
-                rep.known(kf, {"program": text.strip(), "output": out.strip()})
-            else:
-                rep.violation(f"{rname}: {text.strip()!r} -> {out.strip()!r}: expected {exps[:4]} got {after[:4]}", case)
+            sh = blame.shape(text, res_text)
+            out["bad"].append(("wrong", rname, text, {"rule": rname, "program": text, "output": res_text, "expected": exps, "observed": after, "shape": sh}))
+    return out
 
 
 def main(argv=None) -> int:
